@@ -16,7 +16,6 @@ package jet
 
 import (
 	"encoding/json"
-	"errors"
 	"fmt"
 	"html"
 	"io"
@@ -85,7 +84,7 @@ func init() {
 			t, err := a.runtime.set.GetTemplate(a.Get(0).String())
 			// If template exists but returns an error then panic instead of failing silently
 			if t != nil && err != nil {
-				panic(fmt.Errorf("including %s: %w", a.Get(0).String(), err))
+				a.Panicf("including %s: %w", a.Get(0).String(), err)
 			}
 			if err != nil {
 				return hiddenFalse
@@ -114,7 +113,7 @@ func init() {
 			a.RequireNumOfArguments("exec", 1, 2)
 			t, err := a.runtime.set.GetTemplate(a.Get(0).String())
 			if err != nil {
-				panic(fmt.Errorf("exec(%s, %v): %w", a.Get(0), a.Get(1), err))
+				a.Panicf("exec(%s, %v): %w", a.Get(0), a.Get(1), err)
 			}
 
 			a.runtime.newScope()
@@ -143,11 +142,11 @@ func init() {
 			var from, to int64
 			err := a.ParseInto(&from, &to)
 			if err != nil {
-				panic(err)
+				a.Panicf("ints(): %w", err)
 			}
 			// check to > from
 			if to <= from {
-				panic(errors.New("invalid range for ints ranger: 'from' must be smaller than 'to'"))
+				a.Panicf("invalid range for ints ranger: 'from' must be smaller than 'to'")
 			}
 			return reflect.ValueOf(newIntsRanger(from, to))
 		})),
